@@ -13,8 +13,11 @@ for prop, name, nf in viol:
 details = [l.strip()[10:].strip() for l in txt.splitlines() if l.startswith("[check]    ")][:4]
 m = json.load(open(f"/verif/seeded/{sid}/meta.json"))
 head = subprocess.run(["git", "-C", "/repo", "rev-parse", "--short", "HEAD"], capture_output=True, text=True).stdout.strip()
+old = m.get("detected_by")
 m["detected_by"] = {"runs": [{"property": p, "exit": int(e)} for _, p, e in runs], "caught": any(e != "0" for _, _, e in runs),
                     "violations_by_stage": stages, "first_details": details, "repo_head": head}
 if note: m["detected_by"]["note"] = note
+elif isinstance(old, dict) and old.get("note"): m["detected_by"]["note"] = old["note"]
+elif isinstance(old, str) and old: m["detected_by"]["note"] = "earlier record: " + old
 json.dump(m, open(f"/verif/seeded/{sid}/meta.json", "w"), indent=1)
 print(sid, "caught" if m["detected_by"]["caught"] else "MISSED", stages)
